@@ -18,7 +18,7 @@ theorem conn?_mem {s : St} {cid : Nat} {c : Conn} (h : s.conn? cid = some c) : c
   unfold St.conn? at h
   exact List.mem_of_find?_eq_some h
 
-theorem w_applyOp (infoOf : AMsg → MsgInfo) (w : World) (o : Op) (h : WInv w.st) : WInv (applyOp infoOf w o).st := by
+theorem w_applyOp (infoOf : AMsg → MsgInfo) (w : World) (o : Op) (h : WdInv w.st) : WdInv (applyOp infoOf w o).st := by
   cases o with
   | start plan =>
     simp only [applyOp]
@@ -55,8 +55,8 @@ theorem w_applyOp (infoOf : AMsg → MsgInfo) (w : World) (o : Op) (h : WInv w.s
 
 /-- **Every reachable state**: the clock is positive and every connection awaiting a DWA carries a DWR stamp
     that is set and not in the future. -/
-theorem C11_dwr_stamp_invariant (infoOf : AMsg → MsgInfo) (w : World) (ops : List Op) (h : WInv w.st) :
-    WInv (run infoOf w ops).st := by
+theorem C11_dwr_stamp_invariant (infoOf : AMsg → MsgInfo) (w : World) (ops : List Op) (h : WdInv w.st) :
+    WdInv (run infoOf w ops).st := by
   unfold run
   induction ops generalizing w with
   | nil => exact h
@@ -65,7 +65,7 @@ theorem C11_dwr_stamp_invariant (infoOf : AMsg → MsgInfo) (w : World) (ops : L
 /-- **The watchdog cannot get stuck.** After any history: if connection `cid` awaits its DWA, the node is
     not stopping, and the DWA timeout (the peer's value if it has one, else the node's) has been exceeded
     since the DWR was sent, then the timer check closes the connection with the watchdog-timeout reason. -/
-theorem C11_waiting_connection_is_closed_on_timeout (infoOf : AMsg → MsgInfo) (w : World) (ops : List Op) (h : WInv w.st)
+theorem C11_waiting_connection_is_closed_on_timeout (infoOf : AMsg → MsgInfo) (w : World) (ops : List Op) (h : WdInv w.st)
     (cid : Nat) (c : Conn) (hc : (run infoOf w ops).st.conn? cid = some c) (hst : c.state = .waitDwa)
     (hstop : (run infoOf w ops).st.stopping = false)
     (hlate : effTimer (((findConnectionPeer (run infoOf w ops).st c).bind (fun i => (run infoOf w ops).st.peers[i]?)).bind
@@ -83,7 +83,7 @@ theorem C11_waiting_connection_is_closed_on_timeout (infoOf : AMsg → MsgInfo) 
   rw [hb]; rfl
 
 /-- …and while it waits within the timeout nothing is sent or closed: no second DWR. -/
-theorem C11_waiting_connection_is_left_alone_within_timeout (infoOf : AMsg → MsgInfo) (w : World) (ops : List Op) (h : WInv w.st)
+theorem C11_waiting_connection_is_left_alone_within_timeout (infoOf : AMsg → MsgInfo) (w : World) (ops : List Op) (h : WdInv w.st)
     (cid : Nat) (c : Conn) (hc : (run infoOf w ops).st.conn? cid = some c) (hst : c.state = .waitDwa)
     (hstop : (run infoOf w ops).st.stopping = false)
     (hin : (run infoOf w ops).st.now - c.lastDwr ≤ effTimer (((findConnectionPeer (run infoOf w ops).st c).bind
@@ -104,6 +104,6 @@ theorem C11_waiting_connection_is_left_alone_within_timeout (infoOf : AMsg → M
   rw [hb]; rfl
 
 /-- the premise is met by a node without connections whose clock shows a positive time -/
-example : WInv ({ (default : St) with now := 1000, conns := [] }) := ⟨by decide, fun c hc => absurd hc (List.not_mem_nil)⟩
+example : WdInv ({ (default : St) with now := 1000, conns := [] }) := ⟨by decide, fun c hc => absurd hc (List.not_mem_nil)⟩
 
 end DV.Node
